@@ -373,7 +373,8 @@ package proxy
 //@ chanassume RoutedMessage v: msgsOf(v.Resp) != nil ==> (forall a int, c int :: 0 <= a && a < c && c < len(msgsOf(v.Resp).ReplicationTasks) ==> msgsOf(v.Resp).ReplicationTasks[a] != msgsOf(v.Resp).ReplicationTasks[c])
 
 //@ contract (*proxyStreamSender).sendReplicationMessages
-//@   props C02 C01
+//@   props C02 C01 C04
+//@   ensures @latch_tripped: shutdownChan.tripped
 //@   requires s.lastTask >= 0 && s.lastHigh >= 0 && s.lastTask <= s.nextProxyTaskID && s.lastHigh <= s.nextProxyTaskID + 1
 //@   loop 1 invariant s.lastTask >= 0 && s.lastHigh >= 0 && s.lastTask <= s.nextProxyTaskID && s.lastHigh <= s.nextProxyTaskID + 1
 //@   loop 3 invariant s.idRing != nil && s.idRing.wf() && s.nextProxyTaskID == entry(s.nextProxyTaskID) + int64($i)
@@ -433,7 +434,8 @@ package proxy
 // taken only when the ring has nothing at or below w); entries are discarded only after the forwarding loops, and
 // exactly as many as the aggregation covered.
 //@ contract (*proxyStreamSender).recvAck
-//@   props C01
+//@   props C01 C04
+//@   ensures @latch_tripped: shutdownChan.tripped
 //@   requires s.prevAckBySource != nil && !fresh(s.prevAckBySource)
 //@   callpre DeliverAckToShardOwner.1: @forwards_aggregate: $0 in shardToAck && ackOf($1.Req) == shardToAck[$0] && $4 == shardToAck[$0]
 //@   callpre DeliverAckToShardOwner.2: @fallback_only_when_empty: len(shardToAck) == 0 && $0 in pendingPrev && ackOf($1.Req) == pendingPrev[$0]
@@ -540,6 +542,7 @@ package proxy
 // (every delete in the dynamic extent of UnregisterShard).
 //@ contract (*shardManagerImpl).UnregisterShard
 //@   props C08 C09
+//@   assigns contents(sm.localShards)
 //@   requires sm.localShards != nil
 //@   deletepre localShards: @only_own_registration: $present && sm.localShards[$key].Created == expectedRegisteredAt && $key == ClusterShardIDtoShortString(clientShardID)
 
@@ -593,3 +596,159 @@ package proxy
 //@   ensures @exactly_once_iff_true: result <==> ($sends + (sm.remoteSends - old(sm.remoteSends)) == 1)
 //@   ensures @never_twice: $sends + (sm.remoteSends - old(sm.remoteSends)) <= 1
 //@   callpre sendAck: @local_first: $sends == 0 && allowForward
+
+// ---------------------------------------------------------------------------------------------
+// C08: watermark replay to a late target must not be able to crash the process: the channel it finds in the
+// registry may belong to an incarnation that has already closed it (implicit obligation chan:send-open).
+// ---------------------------------------------------------------------------------------------
+//@ extern quiet channel.NewShutdownOnce
+//@ extern (ShardManager).GetRemoteSendChan@(*proxyStreamReceiver).sendPendingWatermarkToShard
+//@   trusted registry read; the channel may already be closed by its owner
+//@   assigns nothing
+//@ extern (ShardManager).GetRemoteSendChan@(*intraProxyStreamReceiver).sendPendingWatermarkToShard
+//@   assigns nothing
+//@ extern (ShardManager).DeliverMessagesToShardOwner@(*proxyStreamReceiver).sendPendingWatermarkToShard
+//@   assigns nothing
+//@ extern (ShardManager).DeliverMessagesToShardOwner@(*intraProxyStreamReceiver).sendPendingWatermarkToShard
+//@   assigns nothing
+//@ extern proto.Clone@(*proxyStreamReceiver).sendPendingWatermarkToShard(m)
+//@   trusted deep copy of the watermark-only message
+//@   ensures result != nil && fresh(result) && sametype(result, m)
+//@   ensures msgsOf(cast(result, "*adminservice.StreamWorkflowReplicationMessagesResponse")) != nil && len(msgsOf(cast(result, "*adminservice.StreamWorkflowReplicationMessagesResponse")).ReplicationTasks) == 0
+//@   assigns nothing
+//@ extern proto.Clone@(*intraProxyStreamReceiver).sendPendingWatermarkToShard(m)
+//@   ensures result != nil && fresh(result) && sametype(result, m)
+//@   ensures msgsOf(cast(result, "*adminservice.StreamWorkflowReplicationMessagesResponse")) != nil && len(msgsOf(cast(result, "*adminservice.StreamWorkflowReplicationMessagesResponse")).ReplicationTasks) == 0
+//@   assigns nothing
+//@ contract (*proxyStreamReceiver).sendPendingWatermarkToShard
+//@   props C08
+//@   requires !(r.sourceShardID.ClusterID == 0 && r.sourceShardID.ShardID == 0)
+//@ contract (*intraProxyStreamReceiver).sendPendingWatermarkToShard
+//@   props C08
+//@   requires !(r.sourceShardID.ClusterID == 0 && r.sourceShardID.ShardID == 0)
+
+// ---------------------------------------------------------------------------------------------
+// C08 / C04: life cycle of a routing stream pair (sender and receiver incarnations).
+// ---------------------------------------------------------------------------------------------
+
+//@ ghost channel.ShutdownOnce.tripped bool
+//@ ghost proxyStreamSender.chanRegistered bool
+// sourcesReset: the source-side receivers of every entry still outstanding in this incarnation's id table have been
+// made to restart (so that their sources resend from the acknowledged level)
+//@ ghost proxyStreamSender.sourcesReset bool
+//@ ghost proxyStreamReceiver.prevTerminated bool
+//@ extern (channel.ShutdownOnce).Shutdown(c)
+//@   trusted go.temporal.io/server/common/channel: trips the latch (idempotent)
+//@   ensures c.tripped
+//@   assigns c.tripped
+//@ extern quiet BuildSenderStreamID
+//@ extern quiet channel.NewShutdownOnce
+//@ extern quiet context.AfterFunc
+//@ extern quiet BuildReceiverStreamID
+//@ extern quiet GetGlobalStreamTracker
+//@ extern metadata.New(m)
+//@   ensures result != nil
+//@   assigns nothing
+//@ extern quiet metadata.NewOutgoingContext
+//@ extern quiet (adminservice.AdminServiceClient).StreamWorkflowReplicationMessages
+//@ extern quiet (grpc.ClientStream).CloseSend
+//@ extern quiet (ShardManager).SetLocalAckChan
+//@ extern quiet (ShardManager).SetLocalReceiverCancelFunc
+//@ extern quiet (ShardManager).RegisterActiveReceiver
+//@ extern quiet (ShardManager).RemoveLocalAckChan
+//@ extern quiet (ShardManager).RemoveLocalReceiverCancelFunc
+//@ extern quiet (ShardManager).UnregisterActiveReceiver
+//@ extern quiet (ShardManager).RemoveRemoteSendChan
+//@ extern quiet (ShardManager).UnregisterShard
+//@ extern quiet (ShardManager).RegisterShard
+//@ extern (ShardManager).SetRemoteSendChan@(*proxyStreamSender).Run
+//@   ensures s.chanRegistered
+//@   assigns s.chanRegistered
+//@ extern (ShardManager).TerminatePreviousLocalReceiver@(*proxyStreamReceiver).Run
+//@   ensures r.prevTerminated
+//@   assigns r.prevTerminated
+// registeredReceiver / registeredCanceller: whose entry currently sits in the registry (unknown to the caller:
+// another incarnation may have replaced it at any time)
+//@ ufunc registeredReceiver(m ShardManager, shard history.ClusterShardID) *proxyStreamReceiver
+//@ ufunc registeredCanceller(m ShardManager, shard history.ClusterShardID) *proxyStreamReceiver
+
+// Sender incarnation: the delivery channel is registered before the shard is announced (so the watermark replay
+// triggered by the announcement reaches the new channel), and the deferred clean-up names exactly this
+// incarnation's channel and registration time.
+//@ contract (*proxyStreamSender).Run
+//@   props C08 C04
+//@   requires s.shardManager != nil
+//@   callpre RegisterShard: @channel_registered_first: s.chanRegistered && $clientShardID == s.targetShardID
+//@   callpre RemoveRemoteSendChan: @own_channel: $expectedChan == s.sendMsgChan && $shardID == s.targetShardID
+//@   callpre UnregisterShard: @own_registration: $expectedRegisteredAt == registeredAt && $clientShardID == s.targetShardID
+// C04 (iv): an incarnation that ends while its id table still holds unconfirmed entries must hand them back (make
+// their source receivers restart); otherwise the successor incarnation's acknowledgements are aggregated as if those
+// entries had been confirmed.
+//@   ensures @C04_unconfirmed_entries_handed_back: s.idRing == nil || s.idRing.size == 0 || s.sourcesReset
+
+// Receiver incarnation: the predecessor is cancelled and evicted before this incarnation registers anything; the
+// aggregation state is reset before the workers start; the deferred clean-up must remove only entries that are
+// still this incarnation's.
+//@ contract (*proxyStreamReceiver).Run
+//@   props C08 C04
+//@   requires !(r.sourceShardID.ClusterID == 0 && r.sourceShardID.ShardID == 0)
+//@   requires r.lastSent == 0 && r.lastSentAck == nil
+//@   callpre SetLocalAckChan: @predecessor_evicted_first: r.prevTerminated && $ackChan == r.ackChan && $shardID == r.sourceShardID
+//@   callpre Add: @aggregation_reset: r.ackByTarget != nil && len(r.ackByTarget) == 0 && r.lastSentMin == 0
+//@   callpre RemoveLocalAckChan: @own_channel: $expectedChan == r.ackChan && $shardID == r.sourceShardID
+//@   callpre UnregisterActiveReceiver: @C08_own_entry: registeredReceiver(r.shardManager, r.sourceShardID) == r
+//@   callpre RemoveLocalReceiverCancelFunc: @C08_own_entry: registeredCanceller(r.shardManager, r.sourceShardID) == r
+
+// C04 (i): both halves of a routing stream get the SAME shutdown latch (the spawned literals are executed on a
+// forked state, so the two Run calls are checked against the latch variable of streamRouting itself).
+//@ contract streamRouting
+//@   props C04
+//@   checkgo
+//@   requires shardManager != nil
+//@   requires !(targetShardID.ClusterID == 0 && targetShardID.ShardID == 0)
+//@   callpre Run: @same_latch: $shutdownChan == shutdownChan
+// C04 (ii): every worker trips the latch on every exit path. The requires clauses of the spawned literals are
+// proof obligations at the two go statements of Run.
+//@ contract (*proxyStreamReceiver).Run$2
+//@   props C04
+//@   requires r != nil
+//@   requires !(r.sourceShardID.ClusterID == 0 && r.sourceShardID.ShardID == 0) && r.ackByTarget != nil && allocated(r.ackByTarget)
+//@   ensures @latch_tripped: shutdownChan.tripped
+//@ contract (*proxyStreamReceiver).Run$4
+//@   props C04
+//@   requires r != nil
+//@   requires r.ackByTarget != nil && r.lastSentMin == r.lastSent && (r.lastSentAck != nil ==> ackOf(r.lastSentAck) == r.lastSent)
+//@   requires r.lastSentMin <= 0 || r.lastSentMin <= r.lastExclusiveHighOriginal
+//@   ensures @latch_tripped: shutdownChan.tripped
+
+// ---------------------------------------------------------------------------------------------
+// C08: registration operations leave exactly the caller's endpoint registered for the shard, and touch no other
+// shard's entry (the assigns clause frames the map; other keys are covered by the map-store model).
+// ---------------------------------------------------------------------------------------------
+//@ contract (*shardManagerImpl).SetRemoteSendChan
+//@   props C08
+//@   requires sm.remoteSendChannels != nil
+//@   ensures @newest_registered: shardID in sm.remoteSendChannels && sm.remoteSendChannels[shardID] == sendChan
+//@ contract (*shardManagerImpl).SetLocalAckChan
+//@   props C08
+//@   requires sm.localAckChannels != nil
+//@   ensures @newest_registered: shardID in sm.localAckChannels && sm.localAckChannels[shardID] == ackChan
+//@ contract (*shardManagerImpl).RegisterActiveReceiver
+//@   props C08
+//@   requires sm.activeReceivers != nil
+//@   ensures @newest_registered: sourceShardID in sm.activeReceivers && sm.activeReceivers[sourceShardID] == receiver
+//@ contract (*shardManagerImpl).addLocalShard
+//@   props C08 C09
+//@   requires sm.localShards != nil
+//@   ensures @claimed_now: ClusterShardIDtoShortString(shard) in sm.localShards && sm.localShards[ClusterShardIDtoShortString(shard)].Created == result && sm.localShards[ClusterShardIDtoShortString(shard)].ID == shard
+// The predecessor is evicted: after the call no cancel function and no acknowledgement channel of an older
+// receiver incarnation is registered for the shard.
+//@ contract (*shardManagerImpl).TerminatePreviousLocalReceiver
+//@   props C08 C04
+//@   requires sm.localReceiverCancelFuncs != nil && sm.localAckChannels != nil && logger != nil
+//@   ensures @predecessor_evicted: !(shardID in sm.localReceiverCancelFuncs)
+
+// C09: a full-state merge records exactly the decoded state under the sender's node name.
+//@ contract (*shardDelegate).MergeRemoteState
+//@   props C09
+//@   requires sd.manager != nil ==> sd.manager.remoteNodeStates != nil
